@@ -159,7 +159,7 @@ func utxoTotalStaging(c *q.Ctx) {
 		c.ArgIs(up, "Batch.Put", 1, "*big.(*Int).Bytes(p0.utxoTotal)*", 1, "the persisted total is the in-memory total")
 		c.Before(up, q.ToCall("Batch.Put"), q.ToReturn(), "every change of the in-memory total is staged in the caller's batch, in both directions")
 		c.ArgIs(up, "Batch.Put", -1, "p2", 1, "staged in the batch of the block being played or undone")
-		c.EffectExists(up, "Batch.Put", 0, "append(\"M\",\"xtotal\")", nil, "the persisted total lives under the meta key NewState reloads")
+		c.EffectExists(up, "Batch.Put", 0, "\"Mxtotal\"", nil, "the persisted total lives under the meta key NewState reloads")
 		c.Guard(up, q.Cond{Canon: "p3", Sense: true}, q.ToCall("big::Int.Sub"), q.Opt{})
 		c.Guard(up, q.Cond{Canon: "p3", Sense: false}, q.ToCall("big::Int.Add"), q.Opt{})
 	}
